@@ -188,7 +188,7 @@ PROPS = {
         design_ref="DESIGN.md section 4, C04",
     ),
     "C09": S(
-        slices.C09 + [e.ctx5, e.cont1_2],
+        slices.C09 + [e.ctx5, e.cont1_2] + version.API,
         explanation="inner_stack is assigned from extract_child(<manager's generator>, for_task=False) only under `not context.is_exiting` in both sibling registrations; the four-way classification of elaborate_exit_stack assigns method names in sync/async pairs that are real methods of ExitStack/AsyncExitStack "
                     "on every supported interpreter, and every private contextlib name it reads (_exit_callbacks, element order (is_sync, callback), wrapper name _exit_wrapper, free variables args/kwds, __wrapped__, MethodType exit wrappers, _GeneratorContextManagerBase attributes) "
                     "agrees with contextlib.py of CPython 3.9-3.12; the child's is_async is the negation of is_sync; children are unfolded with fill_context, appended in deque (registration) order and assigned once.",
